@@ -40,7 +40,7 @@ func init() {
 
 // kase is the replayable form of every kind of case.
 type kase struct {
-	Kind   string `json:"kind"` // value | modes | layout | expect | boundary | prod
+	Kind   string `json:"kind"`                  // value | modes | layout | expect | boundary | prod
 	Strict bool   `json:"strict_only,omitempty"` // value: only the strict reader was consulted
 	Value  *jval  `json:"value,omitempty"`
 	Text   string `json:"text,omitempty"` // Go-quoted source text
